@@ -44,7 +44,8 @@ Definition row_shape (row : nat) : list atom :=
   | 15 => [Ck]                         (* TaskHandle.wait() on a finished task *)
   | 16 => [Ck]                         (* await handle on a finished task *)
   | 17 => [Ck]                         (* Future.wait() on a finished future *)
-  | 18 => [Ck]                         (* functools.reduce() with zero callback invocations *)
+  | 18 => [CkIf; Effect; ShieldY]      (* functools.reduce(): check first, consume / call, always yield (F22) *)
+  | 22 => [CkIf; ShieldY]              (* functools.reduce() with zero callback invocations *)
   | 21 => [CkIf; Effect]               (* Condition.wait() in a cancelled scope while another task queues on the lock *)
   | 19 => [Ck]                         (* await Future on a finished future *)
   | 20 => [Ck]                         (* await Future on a failed / cancelled future: raises after the checkpoint *)
@@ -63,7 +64,7 @@ Definition has_yield (l : list atom) : bool :=
 Definition count_effects (l : list atom) : nat :=
   length (filter (fun a => match a with Effect => true | _ => false end) l).
 
-Definition checked_rows : list nat := [1; 2; 3; 4; 5; 6; 7; 8; 10; 11; 12; 13; 14; 15; 16; 17; 18; 19; 20].
+Definition checked_rows : list nat := [1; 2; 3; 4; 5; 6; 7; 8; 10; 11; 12; 13; 14; 15; 16; 17; 18; 19; 20; 22].
 
 (* codec: [row; cancelled] -> [raised; effects; yields >= 1] *)
 Definition run_case (c : list Z) : list Z :=
